@@ -528,7 +528,10 @@ func parseAddresses(raw json.RawMessage) ([]common.Address, error) {
 
 var errInjected = errors.New("fakeeth: injected eth_getLogs failure")
 
-const padNotifications = 32
+const (
+	padNotifications = 32
+	killGetPause     = 5 * time.Millisecond
+)
 
 func (a *ethAPI) GetLogs(ctx context.Context, q filterArg) ([]types.Log, error) {
 	s := a.s
@@ -575,9 +578,9 @@ func (a *ethAPI) GetLogs(ctx context.Context, q filterArg) ([]types.Log, error) 
 			// client ignores: below every cursor) forces that many dispatcher iterations first.
 			targets := s.liveTargets()
 			s.mu.Unlock()
-			if len(targets) == 0 {
-				time.Sleep(2 * time.Millisecond)
-			}
+			// (The sender may also be preempted between its write and its hand-over to the dispatcher;
+			// the pause makes that window unlikely to still be open. A lost race only costs a discarded case.)
+			time.Sleep(killGetPause)
 			h := header(0)
 			for i := 0; i < padNotifications; i++ {
 				for _, e := range targets {
